@@ -66,6 +66,8 @@ def unit_info(unit):
 def mkq(q):
     if q is None:
         return None
+    if q.get("src") == "__none__":
+        return SourceValue(q["m"] * u(q["u"]), source=None)      # an input given without any source
     if q.get("src"):
         from efootprint.abstract_modeling_classes.explainable_object_base_class import Source
         return SourceValue(q["m"] * u(q["u"]), source=Source(q["src"][0], q["src"][1]))
